@@ -26,7 +26,7 @@ func (j *RemoveMethodApp) Refactoring(conf string) {
 }
 
 func startParse(nodes []core_domain.CodeDataStruct, relates []support.RefactorChangeRelate) {
-	for _, pkgNode := range nodes {
+	for _, pkgNode := range core_domain.WithInnerStructures(nodes) {
 		for _, related := range relates {
 			oldInfo := support.BuildMethodPackageInfo(related.OldObj)
 			newInfo := support.BuildMethodPackageInfo(related.NewObj)
